@@ -95,12 +95,14 @@ pub fn act_err(e: &ActuationError) -> Tok {
 }
 
 type SubStream = Pin<Box<dyn Stream<Item = EntryUpdates> + Send>>;
+type QueryStream = Pin<Box<dyn Stream<Item = databroker::broker::QueryResponse> + Send>>;
 
 pub struct World {
     pub broker: DataBroker,
     pub perms: Vec<Permissions>,
     pub none: Permissions,
     pub subs: Vec<Option<SubStream>>,
+    pub qsubs: Vec<Option<QueryStream>>,
     pub provs: Vec<(Arc<Mutex<Vec<Vec<(i32, DataValue)>>>>, Arc<AtomicBool>)>,
     pub ids: Vec<i32>,
     pub windows: Vec<(SystemTime, SystemTime)>,
@@ -117,6 +119,7 @@ impl World {
             perms: vec![],
             none: databroker::permissions::ALLOW_NONE.clone(),
             subs: vec![],
+            qsubs: vec![],
             provs: vec![],
             ids: vec![],
             windows: vec![],
@@ -202,6 +205,24 @@ pub fn enc_message(w: &World, m: &EntryUpdates, cur: SystemTime) -> Vec<Tok> {
         }
     }
     out
+}
+
+/// everything the query subscribers have been sent, in subscription order
+fn drain_queries(w: &mut World) -> Vec<Vec<Tok>> {
+    let mut lines = Vec::new();
+    for (h, slot) in w.qsubs.iter_mut().enumerate() {
+        if let Some(st) = slot.as_mut() {
+            while let Some(Some(m)) = st.next().now_or_never() {
+                let mut o = vec![110, h as Tok, m.fields.len() as Tok];
+                for f in &m.fields {
+                    crate::codec::enc_str(&f.name, &mut o);
+                    enc_value(&f.value, &mut o);
+                }
+                lines.push(o);
+            }
+        }
+    }
+    lines
 }
 
 pub async fn step(w: &mut World, l: &[Tok]) -> Vec<Vec<Tok>> {
@@ -309,7 +330,9 @@ async fn step_inner(w: &mut World, l: &[Tok], start: SystemTime) -> Vec<Vec<Tok>
                 o.push(id as Tok);
                 o.push(crate::fam_validate::err_code(&e));
             }
-            vec![o]
+            let mut lines = vec![o];
+            lines.extend(drain_queries(w));
+            lines
         }
         3 => {
             let (Some(p), Some(id)) = (c.next(), c.next()) else { return bad };
@@ -493,6 +516,45 @@ async fn step_inner(w: &mut World, l: &[Tok], start: SystemTime) -> Vec<Vec<Tok>
             lines
         }
         20..=32 => crate::fam_api::step_api(w, op, &mut c, start).await,
+        40 => {
+            // SUBQ p extras sql_text <syntax tree, read by the model only>
+            let (Some(p), Some(_extras), Some(sql)) = (c.next(), c.next(), c.string()) else { return bad };
+            let perms = w.perm(p);
+            let r = w.broker.authorized_access(&perms).subscribe_query(&sql).await;
+            match r {
+                Ok(s) => {
+                    w.qsubs.push(Some(Box::pin(s)));
+                    let mut lines = vec![vec![0, (w.qsubs.len() - 1) as Tok]];
+                    lines.extend(drain_queries(w));
+                    lines
+                }
+                Err(databroker::broker::QueryError::CompilationError(msg)) => {
+                    let kind = msg.split('(').next().unwrap_or("");
+                    vec![vec![
+                        1,
+                        match kind {
+                            "UnknownField" => 1,
+                            "TypeError" => 2,
+                            "UnsupportedOperator" => 3,
+                            "UnsupportedOperation" => 4,
+                            "ParseError" => 5,
+                            "MalformedNumber" => 6,
+                            "InvalidLogic" => 7,
+                            "InvalidComparison" => 8,
+                            _ => 9,
+                        },
+                    ]]
+                }
+                Err(databroker::broker::QueryError::InternalError) => vec![vec![1, 10]],
+            }
+        }
+        41 => {
+            let Some(h) = c.next() else { return bad };
+            if let Some(s) = w.qsubs.get_mut(h as usize) {
+                *s = None;
+            }
+            vec![vec![0]]
+        }
         _ => bad,
     };
     out
